@@ -66,6 +66,7 @@ class Spec:
         self.cur = None
         self.axioms_used = {}
         self.inline_kernel = False
+        self.summarised = {r['key'] for r in facts.roots if r['def'] == 'format::Formatter::parse'}
         # trace partitioning at loop heads: one invariant per combination of these small flag values
         # (12-hour/24-hour/meridian bookkeeping of the parser); a precision hint, sound whatever it lists
         self.partition_types = {'std::option::Option<bool>', 'std::option::Option<format::AmPm>'}
@@ -204,6 +205,12 @@ class Spec:
         interp.oblige('P-pre', body['def'] if body else caller, bbi, f"precondition of {key}", sp, ok, st, detail)
 
     def call_override(self, interp, st, key, args):
+        if key in self.summarised and st.stack:
+            # this instance is itself analysed as a root under weaker assumptions (arbitrary Formatter
+            # satisfying the container invariant, arbitrary input): use its contract at call sites
+            body = self.facts.bodies[key]
+            self.axioms_used['root-summary'] = self.axioms_used.get('root-summary', 0) + 1
+            return [(st, interp.top(st, body['locals'][0]['ty'], 'parsed'))]
         if key not in self.KERNEL or self.inline_kernel:
             return None
         if key == 'common::julian2date':
@@ -315,12 +322,42 @@ class Spec:
             return None
         return None
 
+    def root_extra(self, interp, key, args, res):
+        """small per-root facts used by the E2-style rules (taint of the result, clock reads per path)"""
+        info = {'clock_reads_max': 0, 'tainted_ok': 0, 'ok_exits': 0, 'err_kinds': {}}
+        for (st, v) in res:
+            info['clock_reads_max'] = max(info['clock_reads_max'], st.notes.get('clock_reads', 0))
+        return info
+
     # ------------------------------------------------------------------ root arguments
-    def root_args(self, interp, st, key, body):
+    def merge_limit(self, key):
+        """trace-partitioning bound per callee: the text-processing helpers of the formatter/parser return many
+        equivalent exit states and are merged beyond 8; arithmetic code is never merged (its exits carry the
+        case splits the contracts are stated on)"""
+        return 8 if (key.startswith('format::') or key == 'common::the_month_day_of_days') else 10 ** 9
+
+    def root_variants(self, key):
+        """case split of a heavy root into independently analysed variants (covering all cases)"""
+        if key in self.summarised:
+            return ['format_exact=false', 'format_exact=true']
+        return [None]
+
+    def root_args(self, interp, st, key, body, variant=None):
         args = []
         for i in range(1, body['argc'] + 1):
             l = body['locals'][i]
             args.append(interp.top(st, l['ty'], l['name'] or f"arg{i}"))
+        if variant is not None and variant.startswith('format_exact='):
+            want = variant.endswith('true')
+            ref = args[0]
+            fv = interp.load(st, ref.root, ref.path)
+            t = self.facts.types[fv.ty]
+            idx = [i for i, f in enumerate(t['variants'][0]['fields']) if f['name'] == 'format_exact']
+            if len(idx) != 1:
+                raise AnalysisIncomplete('anchor missing: Formatter.format_exact')
+            fs = list(fv.variants[0])
+            fs[idx[0]] = VBool(want)
+            interp.store(st, ref.root, ref.path, VAdt(fv.ty, {0: tuple(fs)}))
         return args
 
 
